@@ -168,7 +168,11 @@ CHECKS["C20"] = dict(
     note="Trusted additionally: CPython audit events as the complete record of file/network access; the allowed set "
          "(import-system reads, the caller-named cache file). Character references, CDATA, comments, PIs and "
          "non-UTF-8 encodings are outside the document language of the model. 'Only named documents are fetched' is "
-         "a Python-side check (the loader model is C12's).",
+         "modelled in coq/C20/Loader.v (namespace-aware named-reference set; loader_fetches_only_named, "
+         "lookalike_names_nothing_in_context) and checked against a named set computed independently by the harness; "
+         "content is also delivered as bytearray/memoryview and under file:// and loopback URLs with decoys planted "
+         "at the real locations; the XML declaration (standalone yes/no/absent) is a generated dimension "
+         "(standalone_no_is_absent).",
 )
 
 CHECKS["C07"] = dict(
@@ -366,9 +370,11 @@ CHECKS["C19"] = dict(
     technique="Coq refinement proof (simulation relation between heap and identity forest, induction over histories) "
               "+ step-wise differential correspondence",
     note="The reference is partial (no claim for edits on pruned nodes, re-appending a node that still has a parent, "
-         "etc.; the model still follows the code there and is compared with it). promotePrefixes/refitPrefixes/"
-         "normalizePrefixes (C05), trim and setnil are not modelled; Document, MultiRef and wsdl import_schema "
-         "appear as probes only.",
+         "etc.; the model still follows the code there and is compared with it). The internal users of tree surgery "
+         "(MultiRef.replace_references incl. the WF clause it gives up, doctor Import.apply, wsdl import_schema, "
+         "Document lookups) are modelled as programs over the heap operations with frame theorems and driven like "
+         "the other operations. promotePrefixes/refitPrefixes/normalizePrefixes (C05), trim and setnil are not "
+         "modelled.",
 )
 
 CHECKS["C04"] = dict(
